@@ -1,12 +1,336 @@
-use crate::util::Report;
-use crate::Ctx;
-use serde_json::Value;
+//! C04 — encoding symbols are byte-exact RFC 6330 symbols.
+//!
+//! direct:      reference C = solution of A*C = D by plain GF(256) elimination, expected repair
+//!              symbol = Enc[K', C, Tuple[K', X + K' - K]]; compared with the crate's packets.
+//! certificate: the crate's intermediate symbols (hook) are checked against all L constraint
+//!              rows evaluated by the reference; repair payloads are recomputed from them with
+//!              the reference Tuple/Enc. Works for any K up to 56403.
+//! tables:      SHA-256 of V0..V3 and Table 2 against /verif/golden/tables.json; Deg probe.
 
-pub fn run(_ctx: &Ctx, _rep: &mut Report) {
-    eprintln!("not implemented yet");
-    std::process::exit(2);
+use crate::codec::{build_block, block_cfg, data_class_from, make_data, repair_esi, symbols_of, Build, BUILDS};
+use crate::reference as rf;
+use crate::util::{fnv_u64s, run_items, run_sharded, sha256_hex, simple_failure, Failure, Report, SplitMix, Stats, SubOutcome, Tier, VERIF_DIR};
+use crate::Ctx;
+use proptest::prelude::*;
+use serde_json::{json, Value};
+use std::time::Instant;
+
+#[derive(Debug, Clone)]
+pub struct Case {
+    k: u32,
+    t: usize,
+    class: u64,
+    seed: u64,
+    build: u64,
+    esi_seed: u64,
 }
 
-pub fn replay(_sub: &str, _case: &Value) -> Result<(), String> {
-    Err("not implemented".into())
+fn k_pool(max_kp: u32) -> Vec<u32> {
+    let mut ks: Vec<u32> = (1..=30).collect();
+    for r in rf::tables().t2.iter() {
+        if r.0 <= max_kp {
+            ks.push(r.0);
+            ks.push(r.0 - 1);
+            ks.push(r.0 + 1);
+        }
+    }
+    ks.sort_unstable();
+    ks.dedup();
+    ks
+}
+
+fn strategy(max_kp: u32) -> impl Strategy<Value = Case> {
+    let pool = k_pool(max_kp);
+    let n = pool.len();
+    (
+        0..n,
+        prop_oneof![4 => 1usize..=8, 2 => 9usize..=80, 1 => Just(128usize), 1 => Just(64usize)],
+        0u64..5,
+        any::<u64>(),
+        0u64..6,
+        any::<u64>(),
+    )
+        .prop_map(move |(ki, t, class, seed, build, esi_seed)| Case {
+            k: pool[ki],
+            // keep the reference solve affordable: T*L bounded
+            t: if pool[ki] > 150 { t.min(16) } else { t },
+            class,
+            seed,
+            build,
+            esi_seed,
+        })
+}
+
+fn esi_list(k: u32, seed: u64, n_random: usize) -> Vec<u32> {
+    let pr = rf::params(k);
+    let mut rng = SplitMix::new(seed);
+    let mut v: Vec<u32> = (k..k + 21).collect();
+    v.push((1 << 24) - 1);
+    v.push((1 << 24) - 2);
+    // the ESI whose ISI is 2^24 + K' - K - 1 is exactly the largest ESI; also the smallest repair
+    for _ in 0..n_random {
+        v.push(repair_esi(rng.next_u64(), rng.next_u64(), k));
+    }
+    let _ = pr;
+    v.sort_unstable();
+    v.dedup();
+    v
+}
+
+/// Fetch repair packets for a sorted list of ESIs using as few calls as possible is not the
+/// point here: one call per ESI (window consistency is C18's business).
+fn repair_payload(enc: &raptorq::SourceBlockEncoder, k: u32, esi: u32) -> Result<Vec<u8>, String> {
+    let p = enc.repair_packets(esi - k, 1);
+    if p.len() != 1 {
+        return Err(format!("repair_packets({}, 1) returned {} packets", esi - k, p.len()));
+    }
+    if p[0].payload_id().encoding_symbol_id() != esi {
+        return Err(format!("repair packet carries ESI {} instead of {esi}", p[0].payload_id().encoding_symbol_id()));
+    }
+    Ok(p[0].data().to_vec())
+}
+
+fn check_direct(c: &Case, st: &mut Stats) -> Result<(), String> {
+    let k = c.k;
+    let pr = rf::params(k);
+    let data = make_data(data_class_from(c.class), c.seed, k as usize * c.t);
+    let src = symbols_of(&data, c.t);
+    let cref = rf::intermediate_symbols(&pr, &src)
+        .ok_or_else(|| format!("reference: constraint matrix for K'={} is singular", pr.kp))?;
+    let cfg = block_cfg(k as usize, c.t);
+    let how = BUILDS[(c.build % 6) as usize];
+    let enc = build_block(how, 3, &cfg, &data);
+    st.class(&format!("build:{how:?}"));
+    st.class_if(k < pr.kp, "padding symbols present");
+    // source packets
+    let sp = enc.source_packets();
+    if sp.len() != k as usize {
+        return Err(format!("K={k}: {} source packets", sp.len()));
+    }
+    for (i, p) in sp.iter().enumerate() {
+        if p.payload_id().encoding_symbol_id() != i as u32 || p.payload_id().source_block_number() != 3 || p.data() != &src[i][..] {
+            return Err(format!("K={k} T={}: source packet {i} does not carry source symbol {i}", c.t));
+        }
+    }
+    // intermediate symbols themselves
+    let cc = enc.verif_intermediate_symbols();
+    if cc != cref {
+        let i = (0..cref.len()).find(|&i| cc.get(i) != Some(&cref[i])).unwrap_or(0);
+        return Err(format!("K={k} T={} {how:?}: intermediate symbol {i} differs from the unique solution of A*C=D", c.t));
+    }
+    for esi in esi_list(k, c.esi_seed, 16) {
+        let isi = esi + (pr.kp - k);
+        let want = rf::enc(&pr, &cref, isi);
+        let got = repair_payload(&enc, k, esi)?;
+        let (d, ..) = rf::tuple(&pr, isi);
+        if d >= 2 && k < pr.kp {
+            st.nt(fnv_u64s(&[k as u64, c.t as u64, esi as u64]));
+        }
+        st.eval();
+        if got != want {
+            return Err(format!(
+                "K={k} (K'={}) T={} {how:?}: repair ESI {esi} (ISI {isi}) differs from Enc[K', C, Tuple[K', {isi}]]",
+                pr.kp, c.t
+            ));
+        }
+    }
+    st.sample(|| json!({"K": k, "K'": pr.kp, "T": c.t, "build": format!("{how:?}"), "data": format!("{:?}", data_class_from(c.class)), "esis": esi_list(k, c.esi_seed, 3)}));
+    Ok(())
+}
+
+// --- certificate mode -------------------------------------------------------------------------
+
+#[derive(Debug, Clone)]
+pub struct CertItem {
+    k: u32,
+    t: usize,
+    build: Build,
+    seed: u64,
+}
+
+fn check_certificate(it: &CertItem, st: &mut Stats) -> Result<(), String> {
+    let k = it.k;
+    let pr = rf::params(k);
+    let data = make_data(crate::codec::DataClass::Random, it.seed, k as usize * it.t);
+    let src = symbols_of(&data, it.t);
+    let cfg = block_cfg(k as usize, it.t);
+    let enc = build_block(it.build, 0, &cfg, &data);
+    let cc = enc.verif_intermediate_symbols();
+    rf::check_intermediate(&pr, &cc, &src).map_err(|m| format!("K={k} (K'={}) {:?}: {m}", pr.kp, it.build))?;
+    st.class(&format!("build:{:?}", it.build));
+    st.class_if(k > 10_000, "K>10000");
+    for esi in esi_list(k, it.seed ^ 0x5555, 24) {
+        let isi = esi + (pr.kp - k);
+        let want = rf::enc(&pr, &cc, isi);
+        let got = repair_payload(&enc, k, esi)?;
+        st.eval();
+        let (d, ..) = rf::tuple(&pr, isi);
+        if d >= 2 && k < pr.kp {
+            st.nt(fnv_u64s(&[k as u64, it.t as u64, esi as u64]));
+        }
+        if got != want {
+            return Err(format!("K={k} (K'={}) {:?}: repair ESI {esi} (ISI {isi}) differs from Enc over the certified intermediate symbols", pr.kp, it.build));
+        }
+    }
+    // source packets
+    for (i, p) in enc.source_packets().iter().enumerate() {
+        if p.data() != &src[i][..] || p.payload_id().encoding_symbol_id() != i as u32 {
+            return Err(format!("K={k}: source packet {i} wrong"));
+        }
+    }
+    st.sample(|| json!({"K": k, "K'": pr.kp, "T": it.t, "build": format!("{:?}", it.build)}));
+    Ok(())
+}
+
+fn cert_items(ctx: &Ctx) -> Vec<CertItem> {
+    let mut rng = SplitMix::new(crate::util::mix(ctx.seed, 404));
+    let mut items = vec![];
+    let kps: Vec<u32> = rf::tables().t2.iter().map(|r| r.0).collect();
+    match ctx.tier {
+        Tier::Quick => {
+            for k in [56403u32, 56402, 55844, 30000, 10000, 9999, 5000, 2000, 1001, 1000, 999, 501, 300, 260, 251, 250, 249, 101] {
+                items.push(CertItem { k, t: 2, build: Build::New, seed: rng.next_u64() });
+            }
+            for _ in 0..12 {
+                let k = 1 + rng.below(20000) as u32;
+                items.push(CertItem { k, t: 1 + rng.below(4) as usize, build: if rng.below(2) == 0 { Build::UnplannedSparse } else { Build::Planned }, seed: rng.next_u64() });
+            }
+        }
+        Tier::Thorough => {
+            for &kp in &kps {
+                items.push(CertItem { k: kp, t: 2, build: Build::UnplannedSparse, seed: rng.next_u64() });
+                if kp > 10 {
+                    let k = kp - 1 - rng.below((kp - 1).min(40) as u64) as u32;
+                    items.push(CertItem { k, t: 1 + rng.below(3) as usize, build: Build::New, seed: rng.next_u64() });
+                }
+            }
+        }
+    }
+    items
+}
+
+// --- tables -----------------------------------------------------------------------------------
+
+pub fn table_check() -> SubOutcome {
+    let started = Instant::now();
+    let mut st = Stats::new();
+    let mut failures: Vec<Failure> = vec![];
+    let (vb, tb) = rf::table_bytes();
+    let (vh, th) = (sha256_hex(&vb), sha256_hex(&tb));
+    let path = format!("{VERIF_DIR}/golden/tables.json");
+    match std::fs::read_to_string(&path).ok().and_then(|t| serde_json::from_str::<Value>(&t).ok()) {
+        Some(g) => {
+            st.evals(2);
+            if g["v_tables_sha256"].as_str() != Some(&vh) {
+                failures.push(simple_failure("tables", format!("V0..V3 digest {vh} differs from the pinned {}", g["v_tables_sha256"]), "tables:v".into(), Value::Null));
+            }
+            if g["table2_sha256"].as_str() != Some(&th) {
+                failures.push(simple_failure("tables", format!("Table 2 digest {th} differs from the pinned {}", g["table2_sha256"]), "tables:t2".into(), Value::Null));
+            }
+        }
+        None => {
+            failures.push(simple_failure("tables", format!("golden file {path} missing or unreadable (computed: V {vh}, T2 {th})"), "tables:golden-missing".into(), Value::Null));
+        }
+    }
+    // Deg against the reference's own copy of the distribution table, all 2^20 inputs, three W
+    for w in [17u32, 29, 56951] {
+        for v in 0..(1u32 << 20) {
+            if raptorq::verif::deg(v, w) != rf::deg(v, w) {
+                failures.push(simple_failure("tables", format!("Deg[{v}] with W={w}: {} vs RFC {}", raptorq::verif::deg(v, w), rf::deg(v, w)), "tables:deg".into(), json!({"v": v, "w": w})));
+                break;
+            }
+        }
+        st.evals(1 << 20);
+    }
+    // Rand against the reference on a spread of inputs (the tables are shared, the indexing is not)
+    let mut rng = SplitMix::new(5);
+    for _ in 0..200_000 {
+        let (y, i, m) = (rng.next_u64() as u32, rng.below(8) as u32, 1 + rng.below(70000) as u32);
+        st.eval();
+        if raptorq::verif::rand(y, i, m) != rf::rand(y, i, m) {
+            failures.push(simple_failure("tables", format!("Rand[{y},{i},{m}] differs from the RFC definition"), "tables:rand".into(), json!({"y": y, "i": i, "m": m})));
+            break;
+        }
+    }
+    st.sample(|| json!({"v_tables_sha256": vh, "table2_sha256": th}));
+    failures.truncate(1);
+    SubOutcome { stats: st, failures, wall_s: started.elapsed().as_secs_f64() }
+}
+
+fn to_json(c: &Case) -> Value {
+    json!({"k": c.k, "t": c.t, "class": c.class, "seed": c.seed, "build": c.build, "esi_seed": c.esi_seed})
+}
+
+fn signature(_c: &Case, msg: &str) -> String {
+    let kind = if msg.contains("panic") {
+        "panic"
+    } else if msg.contains("intermediate symbol") {
+        "intermediate"
+    } else if msg.contains("repair ESI") {
+        "repair"
+    } else if msg.contains("source packet") {
+        "source"
+    } else {
+        "other"
+    };
+    format!("direct:{kind}")
+}
+
+pub fn run(ctx: &Ctx, rep: &mut Report) {
+    rep.rule = "direct: generated (K from {1..30} U {K', K'-1, K'+1 : K' <= 300 (quick) / 1500 (thorough)}, T in 1..=80/128, data class, construction in {new, with_encoding_plan, unplanned dense/sparse, plan generated on dense/sparse}); reference intermediate symbols by plain GF(256) Gaussian elimination of the RFC constraint matrix; source packets, intermediate symbols and repair payloads for ESIs {K..K+20, 16 drawn from near/uniform/far classes, 2^24-2, 2^24-1} compared byte for byte. certificate: crate intermediate symbols for K up to 56403 checked against all L reference constraint rows, repair payloads recomputed with the reference Tuple/Enc. tables: SHA-256 pins, Deg on all 2^20 inputs, Rand on 2e5 inputs. Non-trivial = repair symbol with tuple degree d >= 2 on a block with padding (K < K'); distinct by (K, T, ESI).".into();
+    rep.assumptions.push("V0..V3 and Table 2 are trusted as of the pinned commit (digests in golden/tables.json); no second source exists offline".into());
+    rep.assumptions.push("beyond K' = 1500 invertibility of A is not re-proved by a reference solve; a C that satisfies all L relations is the RFC's C provided A is invertible (shown by the solver succeeding and by C06 for all 477 K')".into());
+    rep.absorb("tables", table_check());
+    let max_kp = ctx.tier.pick(300u32, 1500);
+    let n = ctx.tier.pick(2500u64, 40_000);
+    rep.absorb(
+        "direct",
+        run_sharded("C04", "direct", ctx.seed, n, 32, move || strategy(max_kp), check_direct, to_json, signature),
+    );
+    let items = cert_items(ctx);
+    let mut out = run_items(&items, |it, st| {
+        check_certificate(it, st).map_err(|m| {
+            simple_failure("certificate", m.clone(), format!("certificate:{}", if m.contains("relation") { "constraint" } else { "repair" }), json!({"k": it.k, "t": it.t, "build": format!("{:?}", it.build), "seed": it.seed}))
+        })
+    });
+    out.failures.truncate(1);
+    rep.absorb("certificate", out);
+}
+
+fn build_by_name(s: &str) -> Build {
+    BUILDS.iter().copied().find(|b| format!("{b:?}") == s).unwrap_or(Build::New)
+}
+
+pub fn replay(sub: &str, case: &Value) -> Result<(), String> {
+    let mut st = Stats::new();
+    match sub {
+        "direct" => check_direct(
+            &Case {
+                k: case["k"].as_u64().unwrap() as u32,
+                t: case["t"].as_u64().unwrap() as usize,
+                class: case["class"].as_u64().unwrap(),
+                seed: case["seed"].as_u64().unwrap(),
+                build: case["build"].as_u64().unwrap(),
+                esi_seed: case["esi_seed"].as_u64().unwrap(),
+            },
+            &mut st,
+        ),
+        "certificate" => check_certificate(
+            &CertItem {
+                k: case["k"].as_u64().unwrap() as u32,
+                t: case["t"].as_u64().unwrap() as usize,
+                build: build_by_name(case["build"].as_str().unwrap_or("New")),
+                seed: case["seed"].as_u64().unwrap(),
+            },
+            &mut st,
+        ),
+        "tables" => {
+            let o = table_check();
+            match o.failures.first() {
+                Some(f) => Err(f.message.clone()),
+                None => Ok(()),
+            }
+        }
+        _ => Err(format!("unknown sub-check {sub}")),
+    }
 }
